@@ -86,6 +86,11 @@ UNKNOWN = [bytes([0xa0, 0x38, 0x96, 0x81, 0x00]), enc_unknown(901, 1, b"\x01\x02
            enc_unknown(903, 5, b"\xff\x00\xff\x00"), enc_unknown(2**29 - 1, 2, b"")]      # (the largest legal field number, empty payload)
 
 
+# field numbers of the block 19000..19999 (a .proto file may not *declare* them; on the wire they are numbers like any other) and
+# its neighbours - only used by the history drivers
+UNKNOWN_MORE = [enc_unknown(19000, 0, 5), enc_unknown(19999, 2, b"a"), enc_unknown(18999, 5, b"\x01\x02\x03\x04"), enc_unknown(20000, 0, 0)]
+
+
 def pool(ctx, quick):
     schema = small_schema()
     base = gen.fresh(schema, "L")
